@@ -181,6 +181,28 @@ pub(crate) mod oracle {
     pub(crate) struct Oracle {
         pub index: IngredientIndex,
         pub accumulated: bool,
+        /// present itself as a *function* ingredient whose provisional status is `HEAD_STATUS`
+        pub as_fn: bool,
+    }
+    /// What the oracle function ingredient reports for every key: (is final, iteration stamp, verified_at).
+    pub(crate) static mut HEAD_STATUS: (bool, crate::cycle::IterationStamp, usize) = (true, crate::cycle::IterationStamp::initial(0), 1);
+    impl crate::function::FunctionIngredient for Oracle {
+        fn memo<'db>(&'db self, _: &'db Zalsa, _: Id) -> Option<crate::function::ErasedMemo<'db>> {
+            None
+        }
+        fn sync_table(&self) -> &crate::function::SyncTable {
+            unreachable!("oracle function ingredient has no claim table")
+        }
+        fn provisional_status<'db>(&'db self, _: &'db Zalsa, _: Id) -> Option<crate::cycle::ProvisionalStatus<'db>> {
+            // SAFETY: single-threaded harness
+            let (fin, iteration, va) = unsafe { HEAD_STATUS };
+            let verified_at = Revision::from(va);
+            Some(if fin {
+                crate::cycle::ProvisionalStatus::Final { iteration, verified_at }
+            } else {
+                crate::cycle::ProvisionalStatus::Poisoned { iteration, verified_at }
+            })
+        }
     }
     impl Ingredient for Oracle {
         fn debug_name(&self) -> &'static str {
@@ -224,6 +246,13 @@ pub(crate) mod oracle {
         fn ingredient_index(&self) -> IngredientIndex {
             self.index
         }
+        fn as_function(&self) -> Option<crate::function::FunctionIngredientRef<'_>> {
+            if self.as_fn {
+                Some(crate::function::verif::fn_ref(self))
+            } else {
+                None
+            }
+        }
         fn requires_reset_for_new_revision(&self) -> bool {
             true
         }
@@ -244,9 +273,15 @@ pub(crate) mod oracle {
         let mut z = bare_zalsa();
         let mut i = 0;
         while i < n {
-            z.ingredients_vec.push(Box::new(Oracle { index: IngredientIndex::new(i), accumulated }));
+            z.ingredients_vec.push(Box::new(Oracle { index: IngredientIndex::new(i), accumulated, as_fn: false }));
             i += 1;
         }
+        z
+    }
+    /// A bare `Zalsa` whose ingredient 0 is an oracle *function* ingredient.
+    pub(crate) fn zalsa_with_fn_oracle() -> Zalsa {
+        let mut z = bare_zalsa();
+        z.ingredients_vec.push(Box::new(Oracle { index: IngredientIndex::new(0), accumulated: false, as_fn: true }));
         z
     }
     /// A `RawDatabase` that is never dereferenced (the oracle ignores it).
